@@ -1,5 +1,6 @@
 CONSTANT W = 4
 CONSTANT MODE = "mul"
+CONSTANT RNG = 1
 SPECIFICATION Spec
 INVARIANT MulCorrect
 INVARIANT SignCorrect
